@@ -328,7 +328,11 @@ impl<'c, C: Channel> Context<'c, C> {
     ) -> Self {
         let p_max = circ.input_regs.len();
         let is_contrib = p_own != p_eval;
-        let num_inputs: usize = circ.input_regs.iter().sum();
+        // saturating: absurd counters are rejected in `validate`, they must not overflow here
+        let num_inputs: usize = circ
+            .input_regs
+            .iter()
+            .fold(0, |sum: usize, n| sum.saturating_add(*n));
         Self {
             channel,
             circ,
@@ -423,6 +427,13 @@ fn validate(ctx: &Context<impl Channel>) -> Result<(), Error> {
         p_out,
         ..
     } = ctx;
+    // Registers are addressed by `u32` and `Circuit::validate()` allocates one flag per register before
+    // it checks anything, so a register (or input) count beyond the `u32` range does not describe a
+    // circuit and must not reach an allocation.
+    const MAX_COUNT: usize = u32::MAX as usize;
+    if circ.max_reg_count > MAX_COUNT || ctx.num_inputs > MAX_COUNT {
+        return Err(CircuitError::MaxCircuitSizeExceeded.into());
+    }
     circ.validate()?;
     let Some(expected_inputs) = circ.input_regs.get(p_own) else {
         return Err(Error::PartyDoesNotExist);
